@@ -27,7 +27,7 @@ EXPLANATION = (
     "encodable. Value-level equality for every field value is not decided."
 )
 ASSUMPTIONS = ["struct pack/unpack layout as computed from the literal format strings", "a message object is an instance of exactly one class of its encoder's union annotation"]
-FLOORS = {"C03.R8": 20, "C03.R1": 30, "C03.R2": 8, "C03.R3": 120, "C03.R4": 8, "C03.R5": 40, "C03.R6": 8, "C03.R7": 4, "C03.R9": 1, "C03.R10": 1}
+FLOORS = {"C03.R8": 20, "C03.R1": 30, "C03.R2": 8, "C03.R3": 120, "C03.R4": 8, "C03.R5": 40, "C03.R6": 8, "C03.R7": 4, "C03.R9": 1, "C03.R10": 1, "C03.R11": 1}
 
 PAIRS = [
     ("at4", "x2A_group_ctrl", "GroupControlEncoder", "GroupControlDecoder"),
@@ -71,6 +71,9 @@ def run(ctx):
 
     reuse(ctx, "C03.R10", [lambda c: c04.quick_timer_duration(c, "C04.R8")], "the quick-timer duration, which the bit domain cannot follow (divmod), round-trips on the minute grid in both generations (C04.R8)",
           keep=lambda o: "minute-grid" in o.construct or "wraps" in o.construct or o.verdict != "HOLDS")
+    from . import c06
+
+    reuse(ctx, "C03.R11", [c06.r1, c06.r2, c06.r3, c06.r4], "the check bytes the send path appends are the ones the receive path recomputes and compares (same algorithm, same span), so a produced frame is accepted (C06.R1-R4)")
     reuse(ctx, "C03.R9", [c01.r6], "every packet id the header factories hand out fits the header's packet-id slot, so every message can be framed (C01.R6)")
 
 
